@@ -272,7 +272,7 @@ class Gen:
                         return
                 for c in adds:
                     self.cmd(t, ("assign", o, c))
-                for c in rems:
+                for c in sorted(rems):      # the builder's removals are a mask: recorded in component-id order
                     self.cmd(t, ("remove", o, c))
             else:
                 new_c = ref.closure((e["c"] | set(adds)) - set(rems))
